@@ -191,6 +191,17 @@ def run_model(chk, tier):
     for s in stale:
         chk.note("mid-level model stale for the registry: %s (falling back to exhaustive real "
                  "schedules with TraceRegistryAbs as the only oracle)" % s)
+    if pid == "C04":
+        import inductive
+        ok_shape = (not stale and consts["DispatchOrder"] == "F_then_D"
+                    and consts["RegisterOrder"] == "fallback_then_sigaction")
+        inductive.tlaps_proof(
+            chk, "FallbackProof.tla",
+            "Spec => []PrevAlwaysChained: for any number of signals, first registrations and concurrent deliveries, every "
+            "delivery that reaches the library's dispatcher finds the previous handler of its signal in the slot or in "
+            "the race fallback",
+            applies=ok_shape,
+            why_not="%s %s" % ({k: consts[k] for k in ("DispatchOrder", "RegisterOrder")}, stale))
     if stale:
         return
     for what, cfg, tmo in model_configs(tier):
